@@ -561,8 +561,76 @@ class C16(Property):
         HEADER + '\n  File "a", line 3, in f\n    x\n  [Previous line repeated 5 more times]\nRecursionError: deep',
     ]
 
+    def variant_text(self, case, how):
+        """another traceback text that shares lines with the text of `case` (kind 't')"""
+        fr = [list(f) for f in case['frames']]
+        if how == 'src':        # the same frame lines, other source lines
+            for i, f in enumerate(fr):
+                f[3], f[4] = (None if f[3] is not None and i % 2 else 'other_%d()' % i), None
+        elif how == 'nosrc':
+            for f in fr:
+                f[3], f[4] = None, None
+        elif how == 'path':     # the same source lines under other paths / line numbers
+            for i, f in enumerate(fr):
+                f[0], f[1] = 'elsewhere/' + f[0], '1' + f[1]
+        elif how == 'more':
+            fr = fr + [['z.py', '1', 'z', 'z()', None]] + fr
+        elif how == 'less':
+            fr = fr[:-1]
+        return self.std_text(dict(case, frames=fr, type='Other' if how == 'exc' else case['type'],
+                                  msg='other: msg' if how == 'exc' else case['msg']))
+
+    PRE_HOWS = ['self', 'selfb', 'selfkw', 'src', 'nosrc', 'path', 'more', 'less', 'exc', 'fail', 'fail2', 'nl', 'cut', 'se']
+
+    def pre_item(self, case, how):
+        text = self.std_text(case) if case['k'] == 't' else case['text']
+        if how in ('self', 'selfb', 'selfkw'):
+            return dict({'text': text}, **({'b': 1} if how == 'selfb' else {'kw': 1} if how == 'selfkw' else {}))
+        if how == 'fail':
+            return {'text': 'no traceback here\n' + text}
+        if how == 'fail2':
+            return {'text': '', 'b': 1}
+        if how == 'nl':
+            return {'text': text + '\n'}
+        if how == 'cut':
+            return {'text': text[:max(0, len(text) - 3)]}
+        if how == 'se':
+            return {'text': '\n'.join(text.split('\n')[1:-1] + ['    ^', 'SyntaxError: x'])}
+        if case['k'] == 't':
+            return {'text': self.variant_text(case, how)}
+        return {'text': text.replace('    ', '    other ')}
+
+    def history_family(self):
+        """texts parsed after a history of earlier from_string calls in the same process (the same text, texts that
+        share frame lines / source lines with it, failing calls), every earlier result edited by its caller"""
+        bases = [
+            {'k': 't', 'frames': [['/srv/my dir/main.py', '12', '<module>', 'run(job)', None],
+                                  ['/srv/my dir/worker.py', '40', 'run', 'return step(job)', '           ^^^^^^^^^'],
+                                  ['/srv/my dir/worker.py', '57', 'step', None, None]],
+             'type': 'ValueError', 'msg': 'bad job: id=7\nsecond line', 'nl': 0},
+            {'k': 't', 'frames': [['<string>', '1', '<module>', None, None], ['a.py', '3', 'f', 'f()', None],
+                                  ['a.py', '3', 'f', 'f()', None], ['<string>', '1', '<module>', 'x', None]],
+             'type': 'pkg.E', 'msg': '', 'nl': 1},
+            {'k': 't', 'frames': [], 'type': 'KeyError', 'msg': "'k'", 'nl': 0},
+            {'k': 't', 'frames': [['\u00e9.py', '7', '<lambda>', 'x = "a: b"', None]], 'type': 'E', 'msg': 'm', 'nl': 0, 'b': 1},
+            {'k': 'r', 'text': '  File "s.py", line 9\n    x = (\n        ^\nSyntaxError: invalid syntax'},
+            {'k': 'r', 'text': HEADER + '\n  File "a.py", line 3, in f\n    foo()\n  File "b.py", line 4, in g'},
+        ]
+        for base in bases:
+            yield base
+            for how in self.PRE_HOWS:
+                yield dict(base, pre=[self.pre_item(base, how)])
+            yield dict(base, pre=[self.pre_item(base, h) for h in ('fail', 'self', 'src', 'selfb')])
+            yield dict(base, pre=[self.pre_item(base, h) for h in ('src', 'self', 'self', 'path', 'fail2')])
+
+    def with_history(self, case):
+        rng = self.rng
+        return dict(case, pre=[self.pre_item(case, rng.choice(self.PRE_HOWS)) for _ in range(rng.randint(1, 3))])
+
     def cases(self, budget_s):
         rng = self.rng
+        for c in self.history_family():
+            yield c
         for t in self.FIXED_RAW:
             yield {'k': 'r', 'text': t}
         for c in self.live_family():
@@ -576,11 +644,12 @@ class C16(Property):
             c = self.random_text_case()
             r = rng.random()
             if r < 0.55:
-                yield c
+                pass
             elif r < 0.9:
-                yield dict({'k': 'r', 'text': self.mutate_text(self.std_text(c))}, **({'b': 1} if c.get('b') else {}))
+                c = dict({'k': 'r', 'text': self.mutate_text(self.std_text(c))}, **({'b': 1} if c.get('b') else {}))
             else:
-                yield {'k': 'r', 'text': self.se_text() if rng.random() < 0.6 else self.mutate_text(self.se_text())}
+                c = {'k': 'r', 'text': self.se_text() if rng.random() < 0.6 else self.mutate_text(self.se_text())}
+            yield self.with_history(c) if i % 12 == 5 else c
             if i % live_every == 0:
                 yield self.random_live_case(big=self.thorough and i % (live_every * 10) == 0)
 
@@ -590,9 +659,10 @@ class C16(Property):
             c = self.random_text_case()
             r = rng.random()
             if r < 0.5:
-                yield c
+                yield self.with_history(c) if rng.random() < 0.3 else c
             elif r < 0.8:
-                yield {'k': 'r', 'text': self.mutate_text(self.std_text(c))}
+                c = {'k': 'r', 'text': self.mutate_text(self.std_text(c))}
+                yield self.with_history(c) if rng.random() < 0.3 else c
             else:
                 yield self.random_live_case(big=rng.random() < 0.1, session=True)
 
@@ -1527,11 +1597,43 @@ class C16(Property):
             return obs
         from boltons.tbutils import ParsedException
         text = self.std_text(case) if k == 't' else case['text']
+        forms = [text, text.encode('utf-8')]
         if case.get('b'):
-            text = text.encode('utf-8')      # the documented other form of the argument: the text as UTF-8 bytes
+            forms.reverse()                  # the documented other form of the argument: the text as UTF-8 bytes
+        # what happened in the process before the judged call: other texts parsed (texts sharing frame lines with this
+        # one, the very same text, calls that fail), every result edited by its caller
+        for pre in case.get('pre') or []:
+            try:
+                with time_limit(10):
+                    arg = pre['text'].encode('utf-8') if pre.get('b') else pre['text']
+                    self._spoil_pe(ParsedException.from_string(tb_str=arg) if pre.get('kw') else ParsedException.from_string(arg))
+            except (Exception, CaseTimeout):
+                pass
+        obs = self._parse_once(ParsedException, forms[0])
+        # the caller edits what it was handed (the frames list, the dicts in it, the to_dict() copy), then the same
+        # text is parsed again: every parse must say what the TEXT says
+        first = self._render_pe(obs)
+        n = 1
+        # (the second parse in the same or in the other form in turn; a third one, in the form not yet repeated, for
+        # cases with a history)
+        again = [forms[len(text) % 2]] + ([forms[1 - len(text) % 2]] if case.get('pre') else [])
+        for form in again:
+            self._spoil_pe(self.__dict__.pop('_last_pe', None))
+            o = self._parse_once(ParsedException, form)
+            n += 1
+            if self._render_pe(o) != first:
+                obs['again'] = o
+                obs['again_no'] = n
+                break
+        self._spoil_pe(self.__dict__.pop('_last_pe', None))
+        return obs
+
+    def _parse_once(self, ParsedException, arg):
+        self._last_pe = None
         try:
             with time_limit(10):
-                pe = ParsedException.from_string(text)
+                pe = ParsedException.from_string(arg)
+                self._last_pe = pe
                 obs = {'frames': [[f.get('filepath'), f.get('lineno'), f.get('funcname'), f.get('source_line')]
                                   for f in pe.frames], 'type': pe.exc_type, 'msg': pe.exc_msg}
                 try:
@@ -1547,6 +1649,32 @@ class C16(Property):
             return {'exc': 'ValueError'}
         except Exception as e:
             return {'exc': exc_name(e)}
+
+    @staticmethod
+    def _spoil_pe(pe):
+        """what a caller may do with a ParsedException it was handed: shorten the paths for display, blank the source
+        lines, add keys, reorder / drop / add frames, empty the to_dict() copy, rename the exception.  Only ever
+        applied to RETURNED objects"""
+        if pe is None:
+            return
+        try:
+            d = pe.to_dict()
+            dicts = [f for f in list(pe.frames) + list(d.get('frames') or []) if isinstance(f, dict)]
+            for f in dicts:
+                for key in list(f):
+                    v = f[key]
+                    f[key] = os.path.basename(v)[:12].rstrip('~') + '~' if key == 'filepath' and isinstance(v, str) else ''
+                f['spoiled'] = True
+            for l in (pe.frames, d.get('frames')):
+                if isinstance(l, list):
+                    l.reverse()
+                    if l:
+                        l.pop()
+                    l.append({'filepath': 'spoiled.py', 'lineno': '0', 'funcname': 'spoiled', 'source_line': 'spoiled()'})
+            d.clear()
+            pe.exc_type, pe.exc_msg = 'Spoiled', 'by the caller'
+        except Exception:
+            pass
 
     # ------------------------------------------------------------------ model line / canonical rendering
     def line(self, case):
@@ -1583,6 +1711,19 @@ class C16(Property):
             toks.append(','.join([hx(file), hx(lineno), hx(func), hx(src or ''), '!' if anchor is None else hx(anchor)]))
         return ' '.join(toks)
 
+    @staticmethod
+    def _render_pe(obs):
+        if 'exc' in obs:
+            return 'err ' + obs['exc']
+        def h(x):
+            return '!' if x is None else hx(x if isinstance(x, str) else str(x))
+        fr = ' '.join(','.join(h(x) for x in f) for f in obs['frames']) or '-'
+        # to_string() of frames read from the SyntaxError form (no function name) is outside the statement
+        # (today: KeyError): whatever it does is accepted, on both sides
+        s = '~' if any(f[2] is None for f in obs['frames']) else hx(obs['str']) if 'str' in obs else 'X' + obs['str_exc']
+        # ParsedException.source_file is not something the statement speaks about: not compared
+        return 'ok n=%d %s | %s %s | %s' % (len(obs['frames']), fr, hx(obs['type']), hx(obs['msg']), s)
+
     def render(self, case, obs):
         k = case['k']
         if k == 'l':
@@ -1596,17 +1737,9 @@ class C16(Property):
             return 'B=%s T=%s S=%s P=%s Q=%s N=%d F=%s Y=%s' % (
                 hx(obs['ei']), hx(obs['tbi']), hx(obs['std']), hp(obs['print'], 'print'),
                 hp(obs['print_lim'], 'print_lim'), obs['std_lim_n'], fr, ys)
-        if 'exc' in obs:
-            out = 'err ' + obs['exc']
-        else:
-            def h(x):
-                return '!' if x is None else hx(x if isinstance(x, str) else str(x))
-            fr = ' '.join(','.join(h(x) for x in f) for f in obs['frames']) or '-'
-            # to_string() of frames read from the SyntaxError form (no function name) is outside the statement
-            # (today: KeyError): whatever it does is accepted, on both sides
-            s = '~' if any(f[2] is None for f in obs['frames']) else hx(obs['str']) if 'str' in obs else 'X' + obs['str_exc']
-            # ParsedException.source_file is not something the statement speaks about: not compared
-            out = 'ok n=%d %s | %s %s | %s' % (len(obs['frames']), fr, hx(obs['type']), hx(obs['msg']), s)
+        # the model is a function of the text: a later parse of the same text that differs from the first one (after
+        # the caller edited the earlier result) is shown instead of the first
+        out = self._render_pe(obs.get('again', obs))
         if k == 't':
             # wfc: the model's text-level predicate WFtext accepts every text generated from well-formed data
             out += ' | wf=%d gen=1 wfc=1' % (1 if self.wf_case(case) else 0)
@@ -1619,7 +1752,11 @@ class C16(Property):
         st = self.stats
         st['kind_' + k] = st.get('kind_' + k, 0) + 1
         if k == 'r':
-            # arbitrary text: from_string either returns or raises the documented ValueError
+            # arbitrary text: from_string either returns or raises the documented ValueError (a later parse of the
+            # same text that behaves differently is left to the correspondence: the model is a function of the text)
+            ag = obs.get('again') or {}
+            if 'exc' in ag and ag['exc'] != 'ValueError':
+                return Failure('raises', 'from_string raised %s on %r (parse #%d of this text)' % (ag['exc'], case['text'][:300], obs['again_no']))
             if 'exc' in obs:
                 st['raw_' + obs['exc']] = st.get('raw_' + obs['exc'], 0) + 1
                 if obs['exc'] != 'ValueError':
@@ -1632,29 +1769,47 @@ class C16(Property):
             if not self.in_statement(case):
                 st['text_outside_statement'] = st.get('text_outside_statement', 0) + 1
                 return None
-            text = self.std_text(case)
-            st['text_frames_%s' % min(len(case['frames']), 5)] = st.get('text_frames_%s' % min(len(case['frames']), 5), 0) + 1
-            if any(f[3] is None for f in case['frames'][-1:]):
-                st['text_last_frame_without_source'] = st.get('text_last_frame_without_source', 0) + 1
-            if '\n' in case['msg']:
-                st['text_multiline_msg'] = st.get('text_multiline_msg', 0) + 1
-            if 'exc' in obs:
-                return Failure('raises', 'from_string raised %s on %r' % (obs['exc'], text[:300]))
-            want = [[f[0], f[1], f[2], f[3] or ''] for f in case['frames']]
-            got = [[f[0], str(f[1]), f[2], f[3]] for f in obs['frames']]      # a line number may be a str or an int
-            if got != want:
-                return Failure('fields', 'frames parsed as %r, text says %r' % (obs['frames'], want))
-            if obs['type'] != case['type'] or obs['msg'] != case['msg']:
-                return Failure('fields', 'exception parsed as (%r, %r), text says (%r, %r)'
-                               % (obs['type'], obs['msg'], case['type'], case['msg']))
-            if 'str' not in obs:
-                return Failure('raises', 'to_string raised %s' % obs.get('str_exc'))
-            exp = self.std_text(case, anchors=False)
-            if obs['str'] != exp:
-                return Failure('roundtrip', 'to_string() = %r, text (markers and final newline aside) = %r' % (obs['str'], exp))
-            self._nt = len(case['frames']) > 0
-            return None
-        # live exception
+            if case.get('pre'):
+                st['text_with_history'] = st.get('text_with_history', 0) + 1
+            f = self._oracle_text(case, obs)
+            if f is None and 'again' in obs:
+                # the same text parsed once more, after the caller edited the result of the earlier parse: judged
+                # exactly like the first parse
+                f2 = self._oracle_text(case, obs['again'], count=False)
+                if f2 is not None:
+                    self._nt = False
+                    return Failure('reparse', 'parse #%d of the same text (the caller edited the frames / dicts of the earlier '
+                                   'results in between): %s' % (obs['again_no'], f2.what))
+            return f
+        return self._oracle_live(case, obs)
+
+    def _oracle_text(self, case, obs, count=True):
+        st = self.stats if count else {}
+        text = self.std_text(case)
+        st['text_frames_%s' % min(len(case['frames']), 5)] = st.get('text_frames_%s' % min(len(case['frames']), 5), 0) + 1
+        if any(f[3] is None for f in case['frames'][-1:]):
+            st['text_last_frame_without_source'] = st.get('text_last_frame_without_source', 0) + 1
+        if '\n' in case['msg']:
+            st['text_multiline_msg'] = st.get('text_multiline_msg', 0) + 1
+        if 'exc' in obs:
+            return Failure('raises', 'from_string raised %s on %r' % (obs['exc'], text[:300]))
+        want = [[f[0], f[1], f[2], f[3] or ''] for f in case['frames']]
+        got = [[f[0], str(f[1]), f[2], f[3]] for f in obs['frames']]      # a line number may be a str or an int
+        if got != want:
+            return Failure('fields', 'frames parsed as %r, text says %r' % (obs['frames'], want))
+        if obs['type'] != case['type'] or obs['msg'] != case['msg']:
+            return Failure('fields', 'exception parsed as (%r, %r), text says (%r, %r)'
+                           % (obs['type'], obs['msg'], case['type'], case['msg']))
+        if 'str' not in obs:
+            return Failure('raises', 'to_string raised %s' % obs.get('str_exc'))
+        exp = self.std_text(case, anchors=False)
+        if obs['str'] != exp:
+            return Failure('roundtrip', 'to_string() = %r, text (markers and final newline aside) = %r' % (obs['str'], exp))
+        self._nt = len(case['frames']) > 0
+        return None
+
+    def _oracle_live(self, case, obs):
+        st = self.stats
         if 'skip' in obs:
             st['live_skipped'] = st.get('live_skipped', 0) + 1
             return None
@@ -1892,6 +2047,12 @@ class C16(Property):
     # ------------------------------------------------------------------ shrinking
     def shrink(self, case):
         k = case['k']
+        if k in 'rt' and case.get('pre'):
+            pre = case['pre']
+            yield {k_: v for k_, v in case.items() if k_ != 'pre'}
+            for i in range(len(pre)):
+                if len(pre) > 1:
+                    yield dict(case, pre=pre[:i] + pre[i + 1:])
         if k == 'r':
             t = case['text']
             ls = t.split('\n')
